@@ -29,9 +29,10 @@ func dirName(d int) string {
 
 // edit is ONE modification of the traffic.
 type edit struct {
-	kind string // none flip setlen splice drop dup swap trunc inject
+	kind string // none flip setlen splice drop dup swap trunc cut inject
 	dir  int
-	rec  int      // record index in direction dir (inject: insert before this record; == n: after the last)
+	rec  int      // record index in direction dir (inject: insert before this record; == n: after the last; cut: close after rec records)
+	mode string   // cut: hard (both directions closed, writes fail) | soft (both closed, writes vanish) | half (direction dir only, its writer's writes fail)
 	off  int      // flip / trunc: byte offset inside the record (header included)
 	mask byte     // flip
 	inj  string   // inject: alertw alertf hs0 ccs app
@@ -99,6 +100,7 @@ type mnet struct {
 	asm     [2][]byte // reassembly of what endpoint i wrote
 	seen    [2][]recInfo
 	cutDir  [2]bool // direction d is cut (truncation): further records are discarded
+	wfail   [2]bool // the transport of endpoint i was closed by the network: its writes return an error
 
 	ed      edit
 	held    []byte // swap: the record being held back
@@ -229,6 +231,10 @@ func (e *mend) Write(p []byte) (int, error) {
 	if n.closed[e.who] {
 		return 0, net.ErrClosed
 	}
+	if n.wfail[e.who] {
+		// the connection was closed in transit: like a write on a reset connection
+		return 0, &net.OpError{Op: "write", Net: "mem", Err: net.ErrClosed}
+	}
 	d := e.who
 	n.asm[d] = append(n.asm[d], p...)
 	for len(n.asm[d]) >= n.hdrLen {
@@ -286,6 +292,16 @@ func (n *mnet) route(d, idx int, rec []byte) {
 		put(rec)
 		put(n.held)
 		n.held = nil
+		return
+	}
+	if ed.kind == "cut" {
+		// the transport is closed right after honest record rec-1 of this direction went through
+		put(rec)
+		if idx == ed.rec-1 {
+			n.applied = true
+			n.target = append([]byte(nil), rec...)
+			n.cutNow()
+		}
 		return
 	}
 	if ed.kind == "inject" {
@@ -350,8 +366,32 @@ func (n *mnet) route(d, idx int, rec []byte) {
 	}
 }
 
+// cutNow closes the transport as the cut edit says (n.mu held): what was delivered stays
+// readable, then the readers see end-of-stream; later records vanish; in the modes hard / half
+// the writers' further Write calls fail (the Write in progress, if any, still succeeds).
+func (n *mnet) cutNow() {
+	d := n.ed.dir
+	switch n.ed.mode {
+	case "half":
+		n.cutDir[d] = true
+		n.inEOF[1-d] = true
+		n.wfail[d] = true
+	case "soft":
+		n.cutDir[0], n.cutDir[1] = true, true
+		n.inEOF[0], n.inEOF[1] = true, true
+	default: // hard
+		n.cutDir[0], n.cutDir[1] = true, true
+		n.inEOF[0], n.inEOF[1] = true, true
+		n.wfail[0], n.wfail[1] = true, true
+	}
+}
+
 // start queues an injection at point 0 (before the first record of the direction).
 func (n *mnet) start() {
+	if n.ed.kind == "cut" && n.ed.rec == 0 {
+		n.applied = true
+		n.cutNow()
+	}
 	if n.ed.kind == "inject" && n.ed.rec == 0 {
 		n.applied = true
 		n.in[1-n.ed.dir] = append(n.in[1-n.ed.dir], injected(n.ed.inj, n.hdrLen)...)
